@@ -7,7 +7,7 @@
     The change strategy is an arbitrary function ([change]); no conservation property of it is
     assumed — the balance of a step is what Step::from_parts checks. *)
 From V.Lib Require Import Base.
-From V.C08 Require Import Sql Model Spec ProofsSql ProofsSel ProofsProp ProofsGreedy ProofsSeq.
+From V.C08 Require Import Sql Model Spec Corr Wf ProofsSql ProofsSel ProofsProp ProofsGreedy ProofsSeq Bridge.
 From V.Gen Require Import C08SqlPred.
 Local Open Scope Z_scope.
 
@@ -158,6 +158,13 @@ Theorem C08_greedy_fuel_irrelevant :
   greedy change db e acct pay prefs pol lp fuel sel prior req excl = r -> r <> Err EOutOfFuel ->
   greedy change db e acct pay prefs pol lp (S fuel) sel prior req excl = r.
 Proof. exact greedy_fuel_mono. Qed.
+
+(** *** Bridge: correspondence => property, for select_spendable_notes(AtLeast) cases *)
+Theorem C08_bridge_select : forall db e acct p z pol exclude lf obs,
+  wf_case (CSelect db e acct p (TAtLeast z) pol exclude lf obs) = true ->
+  run_case (CSelect db e acct p (TAtLeast z) pol exclude lf obs) = true ->
+  prop_case (CSelect db e acct p (TAtLeast z) pol exclude lf obs) = true.
+Proof. exact bridge_select_atleast. Qed.
 
 (** *** Non-vacuity: a wallet with two notes, one locked by owner 2 *)
 Definition ex_db : list note_row :=
